@@ -560,9 +560,8 @@ double Find_Root(std::function<double(double)> func, double xLeft, double xRight
 			double x4 = x3 + (x3 - x1) * Sign(f1 - f2) * f3 / sqrt(f3 * f3 - f1 * f2);
 			// In exact arithmetic x4 lies inside the bracket; rounding can push it past an end.
 			x4 = std::max(std::min(x1, x2), std::min(x4, std::max(x1, x2)));
-			// Check if we found the root
-			if(fabs(x4 - result) < xAccuracy)
-				return x4;
+			// Check if the estimate has settled (this alone does not locate the root: the iteration may be creeping).
+			bool settled = (fabs(x4 - result) < xAccuracy);
 			// Prepare next iteration
 			result	  = x4;
 			double f4 = func(x4);
@@ -592,6 +591,31 @@ double Find_Root(std::function<double(double)> func, double xLeft, double xRight
 			{
 				std::cerr << "Error in libphysica::Find_Root(). Ridder's method does not reach the root." << std::endl;
 				std::exit(EXIT_FAILURE);
+			}
+			// x4 is now one end of the bracket [x1,x2]. Return it only if the function is known to change sign within xAccuracy of it.
+			if(fabs(x2 - x1) < xAccuracy)
+				return result;
+			if(settled)
+			{
+				// Probe at the distance xAccuracy from x4 towards the other end of the bracket.
+				double x_other = (x2 == x4) ? x1 : x2;
+				double xp	   = x4 + ((x_other > x4) ? xAccuracy : -xAccuracy);
+				double fp	   = func(xp);
+				if(fp == 0.0)
+					return xp;
+				if(Sign(fp, f4) != fp)
+					return result;
+				// No sign change yet: continue with the tighter bracket.
+				if(x2 == x4)
+				{
+					x2 = xp;
+					f2 = fp;
+				}
+				else
+				{
+					x1 = xp;
+					f1 = fp;
+				}
 			}
 		}
 		std::cout << "Warning in libphysica::Find_Root(): Iterations exceed the maximum. Final value f(" << result << ")=" << func(result) << std::endl;
